@@ -573,15 +573,12 @@ def fixed_width(td):
             return 8
         return None
     if k == "named":
-        return {"IPAddress": 4, "PCCC_ASCII": 2, "Revision": 2}.get(td[1])
+        return {"IPAddress": 4, "PCCC_ASCII": 2}.get(td[1])
     if k == "fss":
         return INT_NAMES[td[2]][1] + td[1]
     if k == "arr":
         w = fixed_width(td[2])
         return None if w is None else td[1] * w
-    if k == "struct":
-        ws = [fixed_width(t) for _, t in td[1]]
-        return None if any(w is None for w in ws) else sum(ws)
     if k == "stag":
         return td[4]
     return None
@@ -599,15 +596,13 @@ def gen_fixed_type(rng, depth):
                 sz = rng.choice([1, 2, 4, 8, 12])
                 t = ("fss", sz, "UDINT", rng.choice([None, sz, max(1, sz - 2)]))
             else:
-                t = ("named", rng.choice(["IPAddress", "Revision"]))
+                t = ("named", "IPAddress")
         else:
             r = rng.random()
             if r < 0.5:
                 t = ("arr", rng.choice([1, 2, 3, 4]), gen_fixed_type(rng, depth - 1))
-            elif r < 0.75:
-                t = gen_stag(rng, depth - 1, False)
             else:
-                t = ("struct", tuple((f"f{i}", gen_fixed_type(rng, depth - 1)) for i in range(rng.choice([1, 2, 3]))))
+                t = gen_stag(rng, depth - 1, False)
         if fixed_width(t) is not None:
             return t
     return ("elem", "DINT")
@@ -907,3 +902,542 @@ def random_bytes(rng, td=None):
     if r < 0.8:
         return bytes(rng.choice([0, 1, 2, 3, 4, 0xFF, 0x80, 0x7F]) for _ in range(n))
     return bytes([rng.choice([0, 1, 2, 3, 5])] + [0] * min(n, 3) + [rng.randrange(32, 127) for _ in range(n)])
+
+
+# ------------------------------------------------------------------ JSON forms (corpus, replays)
+def td_to_json(td):
+    return [td_to_json(x) if isinstance(x, tuple) else x for x in td]
+
+
+def td_from_json(j):
+    return tuple(td_from_json(x) if isinstance(x, list) else x for x in j)
+
+
+def canon_to_json(c):
+    return [canon_to_json(x) if isinstance(x, tuple) else x for x in c]
+
+
+def val_from_canon(c):
+    """the Python value of a canonical form (tuples or JSON lists)"""
+    dt = _dt()
+    k = c[0]
+    if k == "N":
+        return None
+    if k == "B":
+        return bool(c[1])
+    if k == "I":
+        return int(c[1])
+    if k == "F":
+        return b2f(c[1])
+    if k == "S":
+        return "".join(chr(x) for x in c[1])
+    if k == "Y":
+        return bytes.fromhex(c[1])
+    if k == "L":
+        return [val_from_canon(x) for x in c[1]]
+    if k == "T":
+        return tuple(val_from_canon(x) for x in c[1])
+    if k == "D":
+        return {(None if kk is None else val_from_canon(kk)): val_from_canon(x) for kk, x in c[1]}
+    if k == "C":
+        return getattr(dt, c[1])
+    raise ValueError(c)
+
+
+def canon_unordered(c):
+    """canonical form with dict items sorted (Python dict equality ignores insertion order)"""
+    if c[0] in ("L", "T"):
+        return (c[0], tuple(canon_unordered(x) for x in c[1]))
+    if c[0] == "D":
+        return ("D", tuple(sorted(((k, canon_unordered(x)) for k, x in c[1]), key=repr)))
+    return c
+
+
+# ------------------------------------------------------------------ the statement's side conditions, in Python
+# Mirrors of Model/CodecDom.v (doc_dom, wf_ty, in_dom, norm, greedy, ...), written independently and
+# cross-checked against the extracted Coq definitions on every generated case (`domain_check`).
+def expand(td):
+    """type descriptor -> the constructor form of Model/Codec.v `ty` (names resolved)"""
+    k = td[0]
+    if k == "elem":
+        n = td[1]
+        if n == "BOOL":
+            return ("bool",)
+        if n in INT_NAMES:
+            return ("int",) + INT_NAMES[n]
+        if n in ("REAL", "LREAL"):
+            return ("real", n == "LREAL")
+        if n == "DATE_AND_TIME":
+            return ("datetime",)
+        if n in STR_NAMES:
+            return ("str", False, STR_NAMES[n][0], STR_NAMES[n][1])
+        if n == "STRINGN":
+            return ("stringn",)
+        if n == "STRINGI":
+            return ("stringi",)
+        if n in BITS_NAMES:
+            return ("bits", BITS_NAMES[n])
+        raise ValueError(n)
+    if k == "named":
+        n = td[1]
+        rev = ("struct", "plain", (("major", ("int", False, 1)), ("minor", ("int", False, 1))))
+        ident = (("vendor", ("int", False, 2)), ("product_type", ("int", False, 2)), ("product_code", ("int", False, 2)),
+                 ("revision", rev), ("status", ("nbytes", 2)), ("serial", ("int", False, 4)), ("product_name", ("str", False, 1, "latin1")))
+        if n == "IPAddress":
+            return ("ip",)
+        if n == "Revision":
+            return rev
+        if n == "ModuleIdentityObject":
+            return ("struct", "module", ident)
+        if n == "ListIdentityObject":
+            return ("struct", "list", ((None, ("int", False, 2)), (None, ("int", False, 2)), ("encap_protocol_version", ("int", False, 2)),
+                                       (None, ("int", True, 2)), (None, ("int", False, 2)), ("ip_address", ("ip",)), (None, ("int", False, 8)))
+                    + ident + (("state", ("int", False, 1)),))
+        return ("pccc_ascii",) if n == "PCCC_ASCII" else ("pccc_string",)
+    if k == "nbytes":
+        return td
+    if k == "arr":
+        return ("arr", td[1], expand(td[2]))
+    if k == "arrp":
+        return ("arrp", td[1], expand(td[2]), expand(td[3]))
+    if k == "arrall":
+        return ("arrall", expand(td[1]))
+    if k == "struct":
+        return ("struct", "plain", tuple((n, expand(t)) for n, t in td[1]))
+    if k == "fss":
+        sg, w = INT_NAMES[td[2]]
+        return ("fss", td[1], sg, w, td[1] if td[3] is None else td[3])
+    if k == "stag":
+        return ("stag", tuple((n, o, expand(t)) for n, o, t in td[1]), td[2], td[3], td[4])
+    raise ValueError(td)
+
+
+def x_greedy(x):
+    k = x[0]
+    if k == "nbytes":
+        return x[1] < 0
+    if k in ("arrall", "pccc_string"):
+        return True
+    if k == "struct":
+        return bool(x[2]) and x_greedy(x[2][-1][1])
+    return False
+
+
+def x_doc_greedy(x):
+    k = x[0]
+    if k == "nbytes":
+        return x[1] == -1
+    if k == "arrall":
+        return True
+    if k == "struct":
+        return bool(x[2]) and x_doc_greedy(x[2][-1][1])
+    return False
+
+
+def x_fixed_width(x):
+    k = x[0]
+    if k == "bool":
+        return 1
+    if k == "int":
+        return x[2]
+    if k == "real":
+        return 8 if x[1] else 4
+    if k == "bits":
+        return x[1]
+    if k == "fss":
+        return x[3] + x[1]
+    if k == "ip":
+        return 4
+    if k == "pccc_ascii":
+        return 2
+    if k == "arr":
+        w = x_fixed_width(x[2])
+        return None if w is None else x[1] * w
+    if k == "stag":
+        return x[4]
+    return None
+
+
+def x_consumes(x):
+    k = x[0]
+    if k in ("bool", "real", "stringn", "stringi", "ip"):
+        return True
+    if k == "int":
+        return x[2] > 0
+    if k == "bits":
+        return x[1] > 0
+    if k == "str":
+        return x[2] > 0
+    if k == "fss":
+        return x[3] > 0
+    if k == "arr":
+        return x[1] > 0 and x_consumes(x[2])
+    if k == "struct":
+        return bool(x[2]) and x_consumes(x[2][0][1])
+    if k == "stag":
+        return x[4] > 0 and bool(x[1]) and x_consumes(x[1][0][2])
+    return False
+
+
+def x_always_decodes(x):
+    k = x[0]
+    if k in ("bool", "real", "ip"):
+        return True
+    if k == "int":
+        return x[2] > 0
+    if k == "bits":
+        return x[1] > 0
+    if k == "arr":
+        return x_always_decodes(x[2]) and x[2][0] != "nbytes"
+    return False
+
+
+def _unnamed(k):
+    return k is None or k == ""
+
+
+def _int_in_range(sg, w, z):
+    return (-(1 << (8 * w - 1)) <= z < (1 << (8 * w - 1))) if sg else (0 <= z < (1 << (8 * w)))
+
+
+def _is_int(v):
+    return isinstance(v, int) and not isinstance(v, bool)
+
+
+def _encodable(enc, s):
+    try:
+        s.encode({"latin1": "iso-8859-1", "utf8": "utf-8", "utf16": "utf-16-le", "utf32": "utf-32-le"}[enc])
+        return True
+    except UnicodeError:
+        return False
+
+
+def _single_byte(enc, s):
+    lim = {"latin1": 256, "utf8": 128}.get(enc, 0)
+    return all(ord(c) < lim for c in s)
+
+
+def _ip_ok(s):
+    parts = s.split(".")
+    return len(parts) == 4 and all(p.isascii() and p.isdigit() and len(p) <= 3 and (p == "0" or p[0] != "0") and int(p) <= 255 for p in parts)
+
+
+def round_binary32(x):
+    """nearest binary32 (ties to even) of a double, as a double; None = beyond the binary32 range.
+    Integer arithmetic only (independent of struct.pack)."""
+    from fractions import Fraction
+    if x != x or x in (float("inf"), float("-inf")) or x == 0:
+        return x
+    a = Fraction(abs(x))
+    m, ex = math.frexp(abs(x))
+    q = max(ex - 1 - 23, -149)
+    n = a / Fraction(2) ** q
+    fl = n.numerator // n.denominator
+    r = n - fl
+    if r > Fraction(1, 2) or (r == Fraction(1, 2) and fl % 2 == 1):
+        fl += 1
+    res = Fraction(fl) * Fraction(2) ** q
+    if res >= Fraction(2) ** 128:
+        return None
+    return math.copysign(float(res), x)
+
+
+def _stringi_parts(v):
+    dt = _dt()
+    if not (isinstance(v, tuple) and len(v) == 4 and isinstance(v[0], str) and isinstance(v[1], type)
+            and isinstance(v[2], str) and _is_int(v[3])):
+        return None
+    names = {dt.STRING: "STRING", dt.STRING2: "STRING2", dt.STRINGN: "STRINGN", dt.SHORT_STRING: "SHORT_STRING"}
+    if v[1] not in names:
+        return None
+    return v[0], expand(("elem", names[v[1]])), v[2], v[3]
+
+
+def py_doc_val(x, v):
+    """mirror of CodecDom.doc_val: value documented to be accepted by the type"""
+    k = x[0]
+    if k == "bool":
+        return isinstance(v, bool)
+    if k == "int":
+        return x[2] > 0 and _is_int(v) and _int_in_range(x[1], x[2], v)
+    if k == "real":
+        return isinstance(v, float) and (x[1] or round_binary32(v) is not None)
+    if k == "datetime":
+        return isinstance(v, tuple) and len(v) == 2 and _is_int(v[0]) and _is_int(v[1]) and 0 <= v[0] < 1 << 32 and 0 <= v[1] < 1 << 16
+    if k == "str":
+        return isinstance(v, str) and x[2] > 0 and _int_in_range(x[1], x[2], len(v)) and _encodable(x[3], v)
+    if k == "stringn":
+        return isinstance(v, str) and len(v) < 65536 and v.isascii()
+    if k == "stringi":
+        p = _stringi_parts(v)
+        return p is not None and py_doc_val(p[1], p[0]) and len(p[2]) == 3 and p[2].isascii() and 0 <= p[3] < 65536
+    if k == "nbytes":
+        return isinstance(v, bytes) and (len(v) > 0 if x[1] == -1 else (x[1] >= 0 and len(v) == x[1]))
+    if k == "bits":
+        return x[1] > 0 and isinstance(v, list) and len(v) == 8 * x[1] and all(isinstance(b, bool) for b in v)
+    if k == "arr":
+        if not isinstance(v, list):
+            return False
+        if x[2][0] == "bits":
+            return x[2][1] > 0 and len(v) >= x[1] * 8 * x[2][1] and all(isinstance(b, bool) for b in v)
+        return not x_greedy(x[2]) and len(v) >= x[1] and all(py_doc_val(x[2], e) for e in v[:x[1]])
+    if k == "arrp":
+        lt = x[2]
+        return (lt[0] == "int" and isinstance(v, list) and not x_greedy(x[3]) and lt[2] > 0 and _int_in_range(lt[1], lt[2], len(v))
+                and all(py_doc_val(x[3], e) for e in v))
+    if k == "arrall":
+        if not isinstance(v, list):
+            return False
+        if x[1][0] == "bits":
+            return x[1][1] > 0 and len(v) % (8 * x[1][1]) == 0 and all(isinstance(b, bool) for b in v)
+        return not x_greedy(x[1]) and x_consumes(x[1]) and all(py_doc_val(x[1], e) for e in v)
+    if k == "struct":
+        ms = x[2]
+        if any(x_greedy(t) for _, t in ms[:-1]):
+            return False
+        if x[1] == "plain":
+            if isinstance(v, dict):
+                return all(n in v and py_doc_val(t, v[n]) for n, t in ms)
+            return isinstance(v, list) and len(v) == len(ms) and all(py_doc_val(t, e) for (_, t), e in zip(ms, v))
+        pre = identity_pre(v)
+        return pre is not None and all(_unnamed(n) or (n in pre and py_doc_val(t, pre[n])) for n, t in ms)
+    if k == "fss":
+        return x[4] <= x[1] and isinstance(v, str) and x[3] > 0 and _int_in_range(x[2], x[3], len(v[:x[4]])) and _encodable("latin1", v[:x[4]])
+    if k == "stag":
+        ms, bits, priv, size = x[1], x[2], x[3], x[4]
+        if not stag_layout_ok(ms, size) or len(set([n for n, _, _ in ms] + [n for n, _, _ in bits])) != len(ms) + len(bits):
+            return False
+        if not all(o < size and b < 8 for _, o, b in bits) or not isinstance(v, dict):
+            return False
+        return (all(n in priv or (n in v and py_doc_val(t, v[n])) for n, _, t in ms)
+                and all(n in v and isinstance(v[n], bool) for n, _, _ in bits))
+    if k == "ip":
+        return isinstance(v, str) and _ip_ok(v)
+    if k == "pccc_ascii":
+        return isinstance(v, str) and len(v) == 2 and _single_byte("latin1", v)
+    if k == "pccc_string":
+        return isinstance(v, str) and len(v) <= 82 and _single_byte("latin1", v)
+    raise ValueError(x)
+
+
+def x_doc_wf(x):
+    """mirror of CodecDom.doc_wf: a type term the constructors are documented to build"""
+    k = x[0]
+    if k == "int":
+        return x[2] > 0
+    if k == "bits":
+        return x[1] > 0
+    if k == "str":
+        return x[2] > 0
+    if k == "nbytes":
+        return x[1] >= -1
+    if k == "arr":
+        return x_doc_wf(x[2]) and not x_greedy(x[2])
+    if k == "arrp":
+        return x[2][0] == "int" and x[2][2] > 0 and x_doc_wf(x[3]) and not x_greedy(x[3])
+    if k == "arrall":
+        return x_doc_wf(x[1]) and not x_greedy(x[1]) and (x[1][0] == "bits" or x_consumes(x[1]))
+    if k == "struct":
+        named = [n for n, _ in x[2] if not _unnamed(n)]
+        return all(x_doc_wf(t) for _, t in x[2]) and not any(x_greedy(t) for _, t in x[2][:-1]) and len(set(named)) == len(named)
+    if k == "fss":
+        return x[4] <= x[1] and x[3] > 0
+    if k == "stag":
+        ms, bits, priv, size = x[1], x[2], x[3], x[4]
+        vis = [(o, x_fixed_width(t)) for n, o, t in ms if n not in priv]
+        return (all(x_doc_wf(t) and not x_greedy(t) for _, _, t in ms) and stag_layout_ok(ms, size)
+                and len(set([n for n, _, _ in ms] + [n for n, _, _ in bits])) == len(ms) + len(bits)
+                and all(n not in priv or x_always_decodes(t) for n, _, t in ms)
+                and all(n not in priv and o < size and b < 8 and not any(vo <= o < vo + w for vo, w in vis) for n, o, b in bits)
+                and len(set((o, b) for _, o, b in bits)) == len(bits))
+    return True
+
+
+def py_doc_dom(x, v):
+    """mirror of CodecDom.doc_dom"""
+    return x_doc_wf(x) and py_doc_val(x, v)
+
+
+def x_type_devs(x, out=None):
+    """deviation classes a documented-constructible TYPE term touches whatever the value
+    (empty <=> wf_ty)"""
+    out = [] if out is None else out
+    k = x[0]
+    if k == "datetime":
+        out.append("DATE_AND_TIME.encode:arity")
+    elif k == "arrp":
+        out.append("Array(length-type)")
+    elif k == "nbytes":
+        if x[1] == 0:
+            out.append("n_bytes(0)")
+    elif k == "arr":
+        if x[2][0] == "nbytes":
+            out.append("Array:n_bytes-element")
+        x_type_devs(x[2], out)
+    elif k == "arrall":
+        if x[1][0] == "nbytes":
+            out.append("Array:n_bytes-element")
+        if x[1][0] == "bits":
+            out.append("Array(None,BitArray)")
+        x_type_devs(x[1], out)
+    elif k == "struct":
+        if x[1] == "list":
+            out.append("ListIdentityObject:no-encode")
+        for _, t in x[2]:
+            x_type_devs(t, out)
+    elif k == "fss":
+        if x[1] == 0:
+            out.append("FixedSizeString(0)")
+    elif k == "stag":
+        for _, _, t in x[1]:
+            x_type_devs(t, out)
+    return out
+
+
+def stag_layout_ok(ms, size):
+    pos = 0
+    for _, off, t in ms:
+        w = x_fixed_width(t)
+        if w is None or off < pos:
+            return False
+        pos = off + w
+    return pos <= size
+
+
+def identity_pre(v):
+    """the head of ModuleIdentityObject._encode as a pure function: names -> ids, serial text -> int"""
+    from pycomm3.cip.status_info import VENDORS, PRODUCT_TYPES
+    if not isinstance(v, dict):
+        return None
+    try:
+        d = dict(v)
+        d["product_type"] = PRODUCT_TYPES[d["product_type"]]
+        d["vendor"] = VENDORS[d["vendor"]]
+        if not isinstance(d["serial"], str):
+            return None
+        d["serial"] = int.from_bytes(bytes.fromhex(d["serial"]), "big")
+        return d
+    except (KeyError, ValueError, TypeError):
+        return None
+
+
+def py_devs(x, v, rest=b""):
+    """for (x, v) in the documented domain: the deviation classes of the code that the case touches
+    (empty <=> wf_ty x && in_dom x v, and no data after a reader-to-the-end)."""
+    out = x_type_devs(x)
+    _devs(x, v, out)
+    if x_greedy(x) and rest:
+        out.append("PCCC_STRING:followed-by-data" if not x_doc_greedy(x) else "greedy:followed-by-data")
+    return sorted(set(out))
+
+
+def _devs(x, v, out):
+    """value-dependent deviation classes"""
+    k = x[0]
+    if k == "str":
+        if not _single_byte(x[3], v):
+            out.append("STRING2:nonempty" if x[3] == "utf16" else "string:multi-byte-characters")
+    elif k == "stringn":
+        if v == "":
+            out.append("STRINGN:empty")
+    elif k == "stringi":
+        p = _stringi_parts(v)
+        sub = []
+        _devs(p[1], p[0], sub)
+        out += ["STRINGI>" + c for c in sub]
+    elif k == "arr":
+        e = x[2]
+        if e[0] == "bits":
+            if len(v) != x[1] * 8 * e[1]:
+                out.append("BitArray[n]:overlong")
+        elif e[0] != "nbytes":
+            for y in v[:x[1]]:
+                _devs(e, y, out)
+    elif k in ("arrall", "arrp"):
+        e = x[-1]
+        if e[0] not in ("nbytes", "bits"):
+            for y in v:
+                _devs(e, y, out)
+    elif k == "struct":
+        ms = x[2]
+        if x[1] == "list":
+            return
+        src = v
+        if x[1] == "module":
+            src = identity_pre(v)
+        vals = [src[n] for n, _ in ms] if isinstance(src, dict) else list(src)
+        for (n, t), y in zip(ms, vals):
+            _devs(t, y, out)
+    elif k == "stag":
+        for n, _, t in x[1]:
+            if n not in x[3]:
+                _devs(t, v[n], out)
+    elif k == "pccc_string":
+        if len(v) % 2:
+            out.append("PCCC_STRING:odd-length")
+
+
+def py_norm(x, v):
+    """the value decode is documented to return for an in-domain input: identity up to REAL
+    rounding, truncation of over-long input to fixed arrays / fixed strings, positional struct input
+    as a dict of the named members, STRINGI's (strings, langs, char_sets)"""
+    k = x[0]
+    if k == "real":
+        return v if x[1] else round_binary32(v)
+    if k == "stringi":
+        return ([v[0]], [v[2]], [v[3]])
+    if k == "fss":
+        return v[:x[4]]
+    if k == "arr":
+        if x[2][0] == "bits":
+            return v[:x[1] * 8 * x[2][1]]
+        return [py_norm(x[2], e) for e in v[:x[1]]]
+    if k in ("arrall", "arrp"):
+        return v if x[-1][0] == "bits" else [py_norm(x[-1], e) for e in v]
+    if k == "struct":
+        ms = x[2]
+        if x[1] == "plain":
+            vals = [v[n] for n, _ in ms] if isinstance(v, dict) else list(v)
+            return {n: py_norm(t, y) for (n, t), y in zip(ms, vals) if not _unnamed(n)}
+        from pycomm3.cip.status_info import VENDORS, PRODUCT_TYPES
+        pre = identity_pre(v)
+        out = {n: py_norm(t, pre[n]) for n, t in ms if not _unnamed(n)}
+        out["product_type"] = PRODUCT_TYPES.get(out["product_type"], "UNKNOWN")
+        out["vendor"] = VENDORS.get(out["vendor"], "UNKNOWN")
+        out["serial"] = "%08x" % out["serial"]
+        return out
+    if k == "stag":
+        out = {n: py_norm(t, v[n]) for n, _, t in x[1] if n not in x[3]}
+        out.update({n: v[n] for n, _, _ in x[2]})
+        return out
+    return v
+
+
+def oracle_one(case, budget=0.5):
+    """the C06 statement on the real implementation: T.decode(BytesIO(T.encode(v) + rest)) and
+    stream.tell().  -> ("rt", canon(decoded), consumed, len(encoding)) | ("encerr", code) | ("decerr", code, len) | ("hang",)"""
+    T = ty_build(case[1])
+    signal.setitimer(signal.ITIMER_REAL, budget)
+    try:
+        try:
+            bs = T.encode(case[2])
+        except _Hang:
+            return ("hang",)
+        except Exception as e:
+            return ("encerr", exn_code(e))
+        if not isinstance(bs, (bytes, bytearray)):
+            return ("encerr", -1)
+        s = BytesIO(bytes(bs) + case[3])
+        try:
+            d = T.decode(s)
+        except _Hang:
+            return ("hang",)
+        except Exception as e:
+            if _caused_by_memory(e):
+                return ("hang",)
+            return ("decerr", exn_code(e), len(bs))
+        return ("rt", canon(d), s.tell(), len(bs))
+    except (_Hang, MemoryError):
+        return ("hang",)
+    finally:
+        signal.setitimer(signal.ITIMER_REAL, 0)
